@@ -391,12 +391,13 @@ def run_reproject(case):
         target = want
     if container == "da":
         out = xr_reproject(xx, target, **kwopt)
-        outs = {"da": out}
+        outs = {"da": out, "da.odc.reproject": xx.odc.reproject(target, **kwopt)}
     else:
         ds = xr.Dataset({"a": xx, "b": xx * 2, "plain": xr.DataArray([1, 2, 3], dims=("z",))})
         ds["b"].attrs.update(stale)
         out = xr_reproject(ds, target, **kwopt)
-        outs = {"a": out["a"], "b": out["b"], "ds": out}
+        out2 = ds.odc.reproject(target, **kwopt)
+        outs = {"a": out["a"], "b": out["b"], "ds": out, "ds.odc.reproject[a]": out2["a"], "ds.odc.reproject[b]": out2["b"]}
         if "plain" not in out or out["plain"].values.tolist() != [1, 2, 3]:
             r.fail("reproject:ds:non-geo-variable-lost", f"{case}")
     for name, o in outs.items():
